@@ -35,6 +35,8 @@ TEMPLATES3 = [
     ["C1CC", ["=C", "C"], ["12", "21", "=12"], "CC", ["=C2", "C2", "C=2"], ["C1", "C=1", ""]],
     # three to five components of different sizes (component order must be kept)
     [["CCCC", "CCCCCC", "C", "CC(=O)[O-]"], ".", ["CCCC", "CCC", "C", "CC(=O)[O-]"], ".", ["C", "CC", "[Ca+2]"], ["", ".C", ".N.O"]],
+    # bracket atom with every way of writing a charge (sign repeated, sign + number, leading zero), with isotope and H count
+    [["", "C"], "[", ["", "13"], ["C", "O", "S", "N"], ["", "H"], ["", "+", "++", "+2", "-", "--", "---", "-2", "+03"], "]", ["", "C"]],
 ]
 
 
